@@ -271,6 +271,12 @@ def base_programs(rng, n_core, n_tmpl):
         parts = [rand_signature(rng) for _ in range(k)]
         if rng.random() < 0.5:
             parts.insert(rng.randrange(len(parts) + 1), rng.choice(TEMPLATES))
+        if rng.random() < 0.5:
+            # text that the same pass REMOVES elsewhere in the file (blank-line runs, over-indentation), so the output
+            # is not longer than the input although a signature grew
+            parts.insert(rng.randrange(len(parts) + 1), rng.choice([
+                "\n\n\n\n\n\n\n", "fun pad_over_indented() {\n              let q = 1\n              q\n}\n\n\n\n\n",
+                "let spaced    =     [1,    2,     3]\n\n\n\n\n"]))
         progs.append("".join(parts))
     for size in (3, 6, 10):
         progs += genprog.programs(rng, n_core // 3, size=size, annotate=rng.random() < 0.5)
